@@ -83,6 +83,24 @@ def run(ctx):
     for k, (mname, A) in enumerate((cm * 3)[:3] + [m for m in mats if m[0] == 'poisson2d-6x5'] * 2):
         extra.append((('sa-bsr2', lambda A_: pyamg.smoothed_aggregation_solver(sp.bsr_array(sp.csr_array(A_), blocksize=(2, 2)), max_coarse=4), 'sym'),
                       (mname + '/bsr2', A)))
+    # forced smoothers (tag after '|'): complex Hermitian problems in 2x2 blocks with the block smoothers (their diagonal-block
+    # inverses are complex), and SPD two-field problems in BSR(2,2) storage -- two unknowns per node, coupled inside the node by
+    # [[1, c], [c, 1]] and between neighbours by g [[1, -1], [-1, 1]] -- with point Jacobi at its largest admissible weight
+    for k, (mname, A) in enumerate((cm * 2)[:2]):
+        extra.append((('sa-bsr2|blockgs', lambda A_: pyamg.smoothed_aggregation_solver(sp.bsr_array(sp.csr_array(A_), blocksize=(2, 2)), max_coarse=4), 'sym'),
+                      (mname + '/bsr2', A)))
+        extra.append((('rootnode-bsr2|blockjacobi', lambda A_: pyamg.rootnode_solver(sp.bsr_array(sp.csr_array(A_), blocksize=(2, 2)), max_coarse=4), 'sym'),
+                      (mname + '/bsr2', A)))
+    from pyamg.gallery import poisson as _poisson
+
+    def two_field(T, c, g):
+        Bm, Gm = np.array([[1.0, c], [c, 1.0]]), np.array([[1.0, -1.0], [-1.0, 1.0]])
+        return sp.bsr_array(sp.csr_array(sp.kron(sp.eye_array(T.shape[0]), Bm) + g * sp.kron(T, Gm)), blocksize=(2, 2))
+    for tname, T, c_, g_ in (('chain-24', _poisson((24,), format='csr'), 0.5, 10.0), ('grid-6x6', _poisson((6, 6), format='csr'), 0.5, 10.0),
+                             ('chain-24', _poisson((24,), format='csr'), 0.2, 100.0)):
+        # (plain SA with its single default candidate gives a singular coarse matrix on these problems: outside the hypotheses)
+        for bn, ctor in (('rootnode', pyamg.rootnode_solver), ('pairwise', pyamg.pairwise_solver)):
+            extra.append(((bn + '-twofield|jacobi', lambda A_, ctor=ctor: ctor(A_), 'sym'), ('twofield-%s-c%g-g%g' % (tname, c_, g_), two_field(T, c_, g_))))
     one = [b for b in hier.builders() if b[0] == 'onelevel'][0]
     extra += [(one, m) for m in mats[:3]]
     combos = extra + list(combos)
@@ -115,6 +133,12 @@ def run(ctx):
         smoothers = list(FAMILY)
         rng.shuffle(smoothers)
         smoothers = [FAMILY[ci % len(FAMILY)], FAMILY[(5 * ci + 2) % len(FAMILY)]] + smoothers
+        if bname.endswith('|jacobi'):
+            smoothers = [('jacobi', {'omega': 4.0 / 3.0}), ('jacobi', {'omega': 4.0 / 3.0})] + smoothers
+        if bname.endswith('|blockgs'):
+            smoothers = [('block_gauss_seidel', {'sweep': 'symmetric', 'blocksize': 2}), ('block_gauss_seidel', {'sweep': 'forward', 'blocksize': 2})] + smoothers
+        if bname.endswith('|blockjacobi'):
+            smoothers = [('block_jacobi', {'blocksize': 2}), ('block_gauss_seidel', {'sweep': 'backward', 'blocksize': 2})] + smoothers
         if any(ml.levels[l].A.shape[0] % 2 for l in range(nlev - 1)):
             smoothers = [(nm, dict(kw, blocksize=1)) if kw.get('blocksize') == 2 else (nm, kw) for nm, kw in smoothers]
         for pre, post in [(smoothers[0], smoothers[1]), (smoothers[2], smoothers[2])][:1 if not ctx.thorough else 2]:
